@@ -91,7 +91,7 @@ type node struct {
 	leaf kcache.Subscription
 
 	lossy    bool // the consumer was stalled beyond its buffer: its own stream has gaps by design, no mirror oracle
-	filt     int // reference predicate: index into the family; -1 none; -2 deferred and not supplied; -3 the raw filter.All() (rejects markers too)
+	filt     int  // reference predicate: index into the family; -1 none; -2 deferred and not supplied; -3 the raw filter.All() (rejects markers too)
 	closed   bool
 	baseline bool
 
@@ -100,8 +100,9 @@ type node struct {
 	delayNs   int64
 	events    []evRec
 	markSeen  int
-	maxRV     int // highest resource version carried by any event received so far
-	nmarks    int // marker events received
+	maxRV     int             // highest resource version carried by any event received so far
+	nmarks    int             // marker events received
+	zzSeen    map[string]bool // names of marker-namespace objects whose Create/Update was received
 	note      chan struct{}
 	mirror    map[string]metav1.Object
 	mirrorOn  bool
@@ -430,6 +431,12 @@ func (n *node) pump() {
 				n.markSeen = v
 			}
 			n.nmarks++
+			if ev.Type() != kcache.EventTypeDelete {
+				if n.zzSeen == nil {
+					n.zzSeen = map[string]bool{}
+				}
+				n.zzSeen[obj.GetName()] = true
+			}
 			n.mu.Unlock()
 			select {
 			case n.note <- struct{}{}:
